@@ -645,6 +645,12 @@ func checkSplit(c *Ctx, split *ssa.Function) {
 				for _, e := range edges {
 					switch x := core.StripConv(e).(type) {
 					case *ssa.Call:
+					case *ssa.Extract:
+						// the search helper answers (index, ok)
+						if _, isCall := x.Tuple.(*ssa.Call); !isCall {
+							extraOK = false
+							extraWhy = "the offset term is neither a search result nor len(rest) - len(end)"
+						}
 					case *ssa.BinOp:
 						if x.Op != token.SUB || core.Path(x.Y) != "len(endMatches[*])" {
 							extraOK = false
@@ -711,8 +717,20 @@ func checkSplit(c *Ctx, split *ssa.Function) {
 		if len(terms) == 2 && ((terms[0] == pos && core.Path(terms[1]) == "len(startMatches[*])") || (terms[1] == pos && core.Path(terms[0]) == "len(startMatches[*])")) {
 			// used as first argument of a search call together with endMatches[index]
 			for _, r := range *sl.Referrers() {
-				if call, ok := r.(*ssa.Call); ok && len(call.Call.Args) >= 2 && call.Call.Args[0] == ssa.Value(sl) && core.Path(call.Call.Args[1]) == "endMatches[*]" {
-					okLeft = true
+				if call, ok := r.(*ssa.Call); ok && len(call.Call.Args) >= 2 {
+					// the rest and the end mark are both handed to the search, in whatever order its parameters stand
+					hasRest, hasEnd := false, false
+					for _, a := range call.Call.Args {
+						if a == ssa.Value(sl) {
+							hasRest = true
+						}
+						if core.Path(a) == "endMatches[*]" {
+							hasEnd = true
+						}
+					}
+					if hasRest && hasEnd {
+						okLeft = true
+					}
 				}
 			}
 		}
